@@ -182,6 +182,40 @@ func init() {
 		f.raw("def InsertChainUnlockDeferred : Bool := %v   -- `defer insert.Unlock()` follows it\n", unlockDeferred)
 		f.strList("InsertChainNodeReadsBeforeLock", readsBefore)
 
+		// ---- AST of Downloader.process: who is dropped when the import of a downloaded batch fails ----------------
+		df, err := parser.ParseFile(fset, filepath.Join(repo, "protocol", "downloader", "downloader.go"), nil, 0)
+		if err != nil {
+			return nil, err
+		}
+		pf := findFuncE(df, "process")
+		if pf == nil {
+			return nil, fmt.Errorf("protocol/downloader/downloader.go: func process not found")
+		}
+		var dropArgs, insertStmts []string
+		ast.Inspect(pf.Body, func(n ast.Node) bool {
+			switch x := n.(type) {
+			case *ast.CallExpr:
+				if exprStr(fset, x.Fun) == "d.dropPeer" && len(x.Args) == 1 {
+					dropArgs = append(dropArgs, exprStr(fset, x.Args[0]))
+				}
+			case *ast.AssignStmt:
+				for _, r := range x.Rhs {
+					if call, ok := r.(*ast.CallExpr); ok && exprStr(fset, call.Fun) == "d.insertChain" {
+						insertStmts = append(insertStmts, exprStr(fset, x))
+					}
+				}
+			case *ast.RangeStmt:
+				// `for _, block := range blocks[:max] { raw = append(raw, block.RawBlock) }`: raw[i] is blocks[i]
+				if len(x.Body.List) == 1 {
+					insertStmts = append(insertStmts, "for "+exprStr(fset, x.Key)+", "+exprStr(fset, x.Value)+" := range "+exprStr(fset, x.X)+" { "+exprStr(fset, x.Body.List[0])+" }")
+				}
+			}
+			return true
+		})
+		f.raw("-- protocol/downloader/downloader.go process (AST of the working tree)\n")
+		f.strList("DownloaderProcessDropArgs", dropArgs)
+		f.strList("DownloaderProcessInsert", insertStmts)
+
 		// ---- AST of ProtocolManager.handleMsg ----------------------------------------------------------
 		hf, err := parser.ParseFile(fset, filepath.Join(repo, "protocol", "handler.go"), nil, 0)
 		if err != nil {
